@@ -10,7 +10,7 @@ T3 reflexivity: no built-in floating == / != in the comparator;
 S1 string loops stop at the NUL; mp::Equal tests kind() first.
 """
 import re
-from ..cfg import norm_facts, Facts, kids, strip, walk, cv, render, short_loc, call_args, TRANSPARENT
+from ..cfg import MiniInt, norm_facts, Facts, kids, strip, walk, cv, render, short_loc, call_args, TRANSPARENT
 from ..facts import export_many, AnalysisBroken
 from .. import units
 
@@ -234,7 +234,7 @@ def run(rep, ctx):
     repo = ctx["repo"]
     fn = [r"mp::BasicExprVisitor::.*", r"\(anon\)::ExprComparator::.*", r"\(anon\)::ExprHasher::.*",
           r"mp::Equal", EXPR_CLASSES + r"::.*", r"mp::internal::ExprIterator::.*",
-          r"std::hash::operator\(\)", r"\(anon\)::[A-Za-z_0-9]+"]
+          r"std::hash::operator\(\)", r"\(anon\)::[A-Za-z_0-9]+", r"mp::Function::operator(==|!=)"]
     jobs = [dict(unit="src/expr.cc", repo=repo, fn=fn, enum=[r"mp::expr::Kind"],
                  rec=[r"mp::.*::Impl", r"\(anon\)::Expr(Comparator|Hasher)"])]
     res = export_many(jobs)
@@ -462,6 +462,61 @@ def run(rep, ctx):
                      "%s: Cast of `%s` is %s" % (f.qn.split("::")[-1], xt, "null-tested" if tested else "made under an established kind agreement"),
                      "%s casts `%s` to %s without knowing its kind: for operands of different kinds the cast yields a null expression whose members are then read (memory error instead of `false`)" %
                      (f.qn.split("::")[-1], xt, (c.get("calleeFull") or "").split("<")[-1].rstrip(">")))
+
+    # ---- F1: called functions are compared by identity ---------------------------------------------------------
+    # VisitCall compares the two function handles with Function::operator!=; the hasher hashes the address of the function's name,
+    # which is one per function object: equality must be the identity of the objects (two functions may carry the same name)
+    f1 = rep.rule("C18.F1", "TABLE", "Function::operator== / != compare the identity of the two function objects and nothing else "
+                  "(evaluation on 9 pairs of handles incl. null)", floor=2)
+    fops = {}
+    for f in F.funcs:
+        if f.qn in ("mp::Function::operator==", "mp::Function::operator!=") and not f.is_dependent() and f.cfg is not None:
+            fops.setdefault(f.qn.split("operator")[-1], f)
+    if set(fops) != {"==", "!="}:
+        raise AnalysisBroken("C18.F1: Function::operator== / != not found")
+    struct_failed = set()
+    for op_, f in sorted(fops.items(), key=lambda kv: kv[0] != "=="):
+        via = [c for c in f.walk() if c["k"] == "CXXOperatorCallExpr" and (c.get("callee") or "").split("operator")[-1] in struct_failed]
+        if via:
+            f1.fail("function-identity|%s" % op_, short_loc(f.loc), "Function::operator%s is defined through operator%s, which does not compare identity" % (op_, sorted(struct_failed)[0]))
+            continue
+        foreign = [c for c in f.walk() if c["k"] in ("CallExpr", "CXXMemberCallExpr") or
+                   (c["k"] == "CXXOperatorCallExpr" and not (c.get("callee") or "").startswith("mp::Function::operator"))]
+        members = [m for m in f.walk() if m["k"] == "MemberExpr" and m.get("name") != "impl_"]
+        if foreign or members:
+            what = sorted({(c.get("callee") or render(c))[:40] for c in foreign} | {"member " + (m.get("name") or "?") for m in members})
+            f1.fail("function-identity|%s" % op_, short_loc(f.loc), "Function::operator%s reads %s: two distinct function objects can compare equal (their hashes, taken "
+                    "from the objects' own name addresses, differ) or one object unequal to itself" % (op_, what))
+            struct_failed.add(op_)
+            continue
+        bad = []
+        for a_ in (0, 1, 2):
+            for b_ in (0, 1, 2):
+                box = {}
+
+                def atom(t_, n_, env_, a_=a_, b_=b_):
+                    if n_["k"] == "MemberExpr" and n_.get("name") == "impl_":
+                        base = strip(kids(n_)[0]) if kids(n_) else None
+                        return a_ if base is None or base["k"] == "CXXThisExpr" else b_
+                    if n_["k"] == "CXXOperatorCallExpr" and (n_.get("callee") or "").startswith("mp::Function::operator"):
+                        g_ = fops.get((n_.get("callee") or "").split("operator")[-1])
+                        args = call_args(n_)
+                        swapped = strip(args[0])["k"] != "UnaryOperator" and not any(x["k"] == "CXXThisExpr" for x in walk(args[0]))
+                        sub = MiniInt(F, lambda t2, n2, e2: atom(t2, n2, e2, a_=b_ if swapped else a_, b_=a_ if swapped else b_))
+                        return sub.call(g_, [("obj", None, None)]) if g_ is not None else None
+                    if n_["k"] in ("CXXThisExpr",):
+                        return 1
+                    return None
+                mi = MiniInt(F, atom)
+                try:
+                    got = mi.call(f, [("obj", None, None)])
+                except AnalysisBroken as e_:
+                    raise AnalysisBroken("C18.F1: Function::operator%s: %s" % (op_, e_))
+                want = int((a_ == b_) == (op_ == "=="))
+                if int(bool(got)) != want:
+                    bad.append("handles (%d, %d): %s" % (a_, b_, bool(got)))
+        f1.check(not bad, "function-identity|%s" % op_, short_loc(f.loc), "operator%s is %s of the two impl_ pointers on 9 pairs" % (op_, "equality" if op_ == "==" else "inequality"),
+                 "Function::operator%s: %s" % (op_, "; ".join(bad[:3])))
 
     # ---- S1 ------------------------------------------------------------------------
     s1 = rep.rule("C18.S1", "SCAN",
